@@ -128,6 +128,28 @@ def optTrials (j : Json) (k : String) : Except String (Option (List Trial)) :=
   | .ok (.arr a) => do let l ← a.toList.mapM trialOfJson; pure (some l)
   | _ => pure none
 
+/-- verdicts of all predicates on ONE observed step -/
+def judgeStep (before after : DB) (h : Handle) (call : Call) (obs : Obs) (getops bound : Nat)
+    (viewBefore viewAfter : Option (List Trial)) : Json :=
+  let sug : Option (Nat × String × AlgOutcome) := match call with
+    | .suggest count w alg => some (count, w, alg)
+    | .getSuggestions count alg => some (count, h.cid, alg)
+    | _ => none
+  let infeasible := match call with | .complete id _ reason => infeasibleOK before after h id reason | _ => true
+  let assigned := match sug with | some (_, w, _) => assignedOK after h w obs | none => true
+  let reported := match sug with | some (count, w, alg) => failureReportedOK before h w count alg obs | none => true
+  let poll := match sug with | some _ => decide (getops ≤ bound) && !stillPolling obs | none => true
+  let views := match viewBefore, viewAfter with | some a, some b => viewsOK a b | _, _ => true
+  let completable' := match call with | .complete id _ _ => completable before h id | _ => false
+  let needs := match sug with | some (count, w, _) => needsAlgorithm before h w count | none => false
+  let nothing := match call with | .complete id m none => nothingToSelect before h id m | _ => false
+  Json.mkObj [("lifecycle", toJson (lifecycleOK before after)), ("infeasible", toJson infeasible),
+    ("promised", toJson (promisedOK before h call obs)), ("valueError", toJson (valueErrorOK before h call obs)),
+    ("earlyStop", toJson (earlyStopOK after h call obs)), ("nothingToSelect", toJson nothing),
+    ("effects", toJson (effectsOK before after h call obs)),
+    ("assigned", toJson assigned), ("reported", toJson reported), ("poll", toJson poll), ("views", toJson views),
+    ("completable", toJson completable'), ("needsAlgorithm", toJson needs)]
+
 def judge (j : Json) : Except String Json := do
   let before ← dbOfJson (← j.getObjVal? "before")
   let after ← dbOfJson (← j.getObjVal? "after")
@@ -136,43 +158,41 @@ def judge (j : Json) : Except String Json := do
   let obs ← obsOfJson (← j.getObjVal? "obs")
   let getops := (j.getObjValAs? Nat "getops").toOption.getD 0
   let bound := (j.getObjValAs? Nat "bound").toOption.getD 0
-  let mut infeasible := true
-  let mut assigned := true
-  let mut reported := true
-  let mut poll := true
-  match call with
-  | .complete id _ reason =>
-    -- judged when the call went through to the service and was not refused for another reason
-    infeasible := infeasibleOK before after h id reason
-  | .suggest count w alg =>
-    assigned := assignedOK after h w obs
-    reported := failureReportedOK before h w count alg obs
-    poll := decide (getops ≤ bound) && !stillPolling obs
-  | .getSuggestions count alg =>
-    assigned := assignedOK after h h.cid obs
-    reported := failureReportedOK before h h.cid count alg obs
-    poll := decide (getops ≤ bound) && !stillPolling obs
-  | _ => pure ()
-  let views ← do
-    match ← optTrials j "viewBefore", ← optTrials j "viewAfter" with
-    | some a, some b => pure (viewsOK a b)
-    | _, _ => pure true
-  let completable' := match call with | .complete id _ _ => completable before h id | _ => false
-  let needs := match call with
-    | .suggest count w _ => needsAlgorithm before h w count
-    | .getSuggestions count _ => needsAlgorithm before h h.cid count
-    | _ => false
-  let nothing := match call with | .complete id m none => nothingToSelect before h id m | _ => false
-  return Json.mkObj [("lifecycle", toJson (lifecycleOK before after)), ("infeasible", toJson infeasible),
-    ("promised", toJson (promisedOK before h call obs)), ("valueError", toJson (valueErrorOK before h call obs)),
-    ("earlyStop", toJson (earlyStopOK after h call obs)), ("nothingToSelect", toJson nothing),
-    ("assigned", toJson assigned), ("reported", toJson reported), ("poll", toJson poll), ("views", toJson views),
-    ("completable", toJson completable'), ("needsAlgorithm", toJson needs)]
+  return judgeStep before after h call obs getops bound (← optTrials j "viewBefore") (← optTrials j "viewAfter")
+
+/-- {"op":"judgeProgram","handle":..,"bound":n,"calls":[..],"obs":[..],"snaps":[DB..],"getops":[n..],"views":[[trial..]|null..]}
+    -> {"verdicts":[..]}: every step judged against the snapshot / view of the step before (the empty service first) -/
+def judgeProgram (j : Json) : Except String Json := do
+  let h ← handleOfJson (← j.getObjVal? "handle")
+  let bound := (j.getObjValAs? Nat "bound").toOption.getD 0
+  let calls ← (← getArr j "calls").toList.mapM callOfJson
+  let obs ← (← getArr j "obs").toList.mapM obsOfJson
+  let snaps ← (← getArr j "snaps").toList.mapM dbOfJson
+  let getops ← fromJson? (α := Array Nat) (← j.getObjVal? "getops")
+  let views ← (← getArr j "views").toList.mapM fun v =>
+    match v with
+    | .arr a => do let l ← a.toList.mapM trialOfJson; pure (some l)
+    | _ => pure (none : Option (List Trial))
+  let mut prev := DB.empty
+  let mut prevView : Option (List Trial) := none
+  let mut out : Array Json := #[]
+  let mut i := 0
+  for c in calls do
+    match obs[i]?, snaps[i]? with
+    | some o, some after =>
+      let view := (views[i]?).getD none
+      out := out.push (judgeStep prev after h c o (getops[i]?.getD 0) bound prevView view)
+      prev := after
+      prevView := view
+    | _, _ => throw "judgeProgram: calls / obs / snaps of different lengths"
+    i := i + 1
+  return Json.mkObj [("verdicts", toJson out)]
 
 def handle (j : Json) : Except String Json := do
   match ← getStr j "op" with
   | "run" => runProgram j
   | "judge" => judge j
+  | "judgeProgram" => judgeProgram j
   | op => throw s!"unknown op {op}"
 
 def main : IO Unit := serve handle
